@@ -65,6 +65,27 @@ Definition range_model_bad (c : range_case) : bool :=
 Definition range_oracle_bad (c : range_case) : bool :=
   let '(ts, lo, hi) := c in negb (forallb (fun t => (lo <=? t) && (t <=? hi)) ts).
 
+(** * The artifact tree *)
+(** A generated directory tree; what the REAL collectArtifacts lists for it
+    (file paths, as lists of components); what is left after the REAL
+    removeNonUploadableFiles. *)
+Record tree_case := {
+  tc_tree : list node;
+  tc_has_other : bool;                (* the tree contains a fifo *)
+  tc_listed : list (list bytes);
+  tc_survived : list (list bytes);
+}.
+Definition path_in (p : list bytes) (l : list (list bytes)) : bool := existsb (list_eqb bytes_eqb p) l.
+Definition same_paths (a b : list (list bytes)) : bool :=
+  forallb (fun p => path_in p b) a && forallb (fun p => path_in p a) b.
+Definition tree_model_bad (c : tree_case) : bool :=
+  negb (same_paths (listed_in (tc_tree c)) (tc_listed c) && same_paths (surviving_in (tc_tree c)) (tc_survived c)).
+(** Plain meaning: result.js names the files that are there.  Trees with a
+    fifo are exempt: listing then removing it is a recorded side finding
+    (Properties/C12.v c12_listed_tree_with_fifo_refuted). *)
+Definition tree_oracle_bad (c : tree_case) : bool :=
+  negb (tc_has_other c || same_paths (tc_listed c) (tc_survived c)).
+
 (** * Plays *)
 Record play_case := {
   pc_keep : bool; pc_clear : bool; pc_noplot : bool; pc_quiet : bool; pc_upload : bool;
@@ -88,6 +109,8 @@ Record play_case := {
   pc_plot_files_exist : bool;       (* every data file / loaded script named in plots/*.gp exists; a Repeat
                                        section comes with a lastplot.gp that runme.gp loads *)
   pc_plots_dir : bool;
+  pc_survivors_named : bool;        (* every file left in the run directory (but index.html and upload.log,
+                                       written later) is named in the artifact tree *)
 }.
 
 Definition pc_flags (c : play_case) : flags :=
@@ -128,6 +151,7 @@ Definition play_oracle_code (c : play_case) : N :=
   else if negb (forallb (fun t => (pc_min c - time_tolerance <=? t) && (t <=? pc_max c + time_tolerance)) (pc_times c)) then 7%N
   else if negb (pc_artifacts_named_exist c) then 8%N
   else if negb (pc_plot_files_exist c) then 9%N
+  else if negb (pc_survivors_named c) then 11%N
   else if negb (Bool.eqb (pc_exit_nonzero c) (pc_fouled c)) then 10%N
   else 0%N.
 Definition play_oracle_bad (c : play_case) : bool := negb (play_oracle_code c =? 0)%N.
